@@ -10,4 +10,6 @@ TARGETS = {
     'when': dict(cfg='fib', src=['harness/when.cpp'], cflags=f'-O1 -g1 {ASAN}', libs='-lrapidcheck'),
     'wait': dict(cfg='fib', src=['harness/wait.cpp'], cflags=f'-O1 -g1 {ASAN}', libs='-lrapidcheck'),
     'comutex': dict(cfg='fib', src=['harness/comutex.cpp'], cflags=f'-O1 -g1 {ASAN}', libs='-lrapidcheck'),
+    'coro': dict(cfg='fib', src=['harness/coro.cpp'], cflags=f'-O1 -g1 {ASAN}', libs='-lrapidcheck'),
+    'coro-nost': dict(cfg='fib-nost', src=['harness/coro.cpp'], cflags=f'-O1 -g1 {ASAN}', libs='-lrapidcheck'),
 }
